@@ -132,13 +132,21 @@ def cases(tier, seed):  # noqa: ARG001
                 continue
             for k in range(d):
                 yield {"kind": "gen", "family": fam, "target": info["target"], "auth": info["auth"], "k": k}
+    # revisions whose image classes (or TrustZone register set) differ from the latest revision of the family
+    for fam, rev in sorted(set(G.mbi_revisions()) | set(G.tz_revisions())):
+        for info in G.images(fam, rev):
+            if info["auth"] not in G.PROTECTED_AUTH:
+                continue
+            for k in range(3 if tier == "quick" else 30):
+                yield {"kind": "gen", "family": fam, "target": info["target"], "auth": info["auth"], "k": k, "rev": rev,
+                       "want": {"revision": rev}}
 
 
-def _info(family, target, auth):
-    for i in G.images(family):
+def _info(family, target, auth, revision="latest"):
+    for i in G.images(family, revision):
         if i["target"] == target and i["auth"] == auth:
             return i
-    raise core.Inconclusive(f"{family}: no image ({target}, {auth}) in the database under test")
+    raise core.Inconclusive(f"{family}/{revision}: no image ({target}, {auth}) in the database under test")
 
 
 # ----------------------------------------------------------------------------------- helpers
@@ -198,7 +206,7 @@ def run_case(case, ctx):
     from spsdk.exceptions import SPSDKError
 
     family = case["family"]
-    info = _info(family, case["target"], case["auth"])
+    info = _info(family, case["target"], case["auth"], (case.get("want") or {}).get("revision", "latest"))
     os.makedirs(ctx.workdir, exist_ok=True)
     want = dict(case.get("want") or {})
     if case["kind"] == "gen" and "payload_class" not in want and ctx.rng.random() < 0.8:
@@ -239,7 +247,7 @@ def _run(case, ctx, b, SPSDKError):  # noqa: C901
     sign_log = list(_SIGN_LOG)
     del _SIGN_LOG[:]
     ctx.count("export_ok")
-    prof = G.rom_profile(family, info)
+    prof = G.rom_profile(family, info, b.revision)
     an = G.anchors(b)
     kw = {"rkth": an.get("rkth"), "root_xy": an.get("root_xy"), "user_key": o.get("user_key")}
 
